@@ -18,6 +18,8 @@
  * of the source tree.
  */
 #include "proto.h"
+#include <vector>
+#include <utility>
 #include <tbox/base/json.hpp>
 #include <tbox/base/assert.h>
 #include <tbox/util/json.h>
@@ -140,8 +142,25 @@ void Proto::onRecvJson(const Json &js)
         }
 
     } else if (js.is_array()) {
-        for (auto &js_item : js) {
-            onRecvJson(js_item);
+        //! 数组里还可以嵌套数组。用显式的栈按原有顺序遍历，而不是递归，
+        //! 否则对端发来一个嵌套很深的 "[[[[...]]]]" 就能耗尽调用栈
+        std::vector<std::pair<const Json*, size_t>> array_stack;    //! (数组, 下一个要处理的下标)
+        array_stack.emplace_back(&js, 0);
+
+        while (!array_stack.empty()) {
+            auto &top = array_stack.back();
+            if (top.second >= top.first->size()) {
+                array_stack.pop_back();
+                continue;
+            }
+
+            const Json &js_item = (*top.first)[top.second];
+            ++top.second;
+
+            if (js_item.is_array())
+                array_stack.emplace_back(&js_item, 0);
+            else
+                onRecvJson(js_item);    //! 非数组，不会再递归下去
         }
     }
 }
